@@ -61,8 +61,10 @@ def load_findings() -> Dict[str, Any]:
     return json.load(open(p))
 
 
-def finding_matches(f: Dict[str, Any], prop: str, ob) -> bool:
+def finding_matches(f: Dict[str, Any], prop: str, ob, unit: str = "") -> bool:
     if prop not in f["property"].split(","):
+        return False
+    if f.get("unit") and unit and f["unit"] != unit:
         return False
     if not re.fullmatch(f["obligation"], ob.name):
         return False
@@ -199,7 +201,7 @@ def main(argv=None) -> int:
                 continue
             hit = None
             for f in findings["findings"]:
-                if f.get("status", "open") == "open" and finding_matches(f, prop, ob):
+                if f.get("status", "open") == "open" and finding_matches(f, prop, ob, r.unit):
                     hit = f
                     break
             if hit is not None:
